@@ -122,7 +122,7 @@ def cache_path(kind, *key):
     return d
 
 
-def cache_prune(max_gb=6.0):
+def cache_prune(max_gb=12.0):
     """Keep the cache bounded: remove oldest entries beyond max_gb."""
     if not os.path.isdir(CACHE):
         return
@@ -140,12 +140,17 @@ def cache_prune(max_gb=6.0):
                         sz += os.path.getsize(os.path.join(dp, f))
                     except OSError:
                         pass
-            ents.append((os.path.getmtime(p), sz, p))
+            try:
+                ents.append((os.path.getmtime(p), sz, p))
+            except OSError:
+                pass            # removed meanwhile by a check running in parallel
     ents.sort(reverse=True)
     tot = 0
+    now = time.time()
     for mt, sz, p in ents:
         tot += sz
-        if tot > max_gb * (1 << 30):
+        # never remove an entry younger than two hours: a check running in parallel may be using it
+        if tot > max_gb * (1 << 30) and now - mt > 7200:
             shutil.rmtree(p, ignore_errors=True)
 
 
